@@ -15,6 +15,10 @@ A. Session ∘ RecordLayer (`Pipeline.ops`: decrypt = `TlsRecord` + `Decryptor.d
    `app_phase_exact_13`          A2: TLS 1.3, any padding, content type and padding stripped
    `handshake13_exports_nothing` A2: protected handshake records export nothing (with and without `-a`)
    `tls13_after_finished_exact`  A2: server flight, client flight (one Finished each) ⇒ application epoch, then exact
+   `legacy_finished_record`      TLS ≤ 1.2: ChangeCipherSpec + protected Finished of one side: cipher state advances in
+                                 step with the sender, nothing exported as application data
+   `legacy_after_hello_exact`    TLS ≤ 1.2: CCS + Finished of both sides (either order), then any application history:
+                                 without `-a` the traffic is exactly the sender's application plaintexts
    `app_export_exact`            A3: … ∘ `OutputBuilder.build`: a well-formed conversation whose two payload streams are
                                  the concatenations of the sender's plaintexts per direction
 B. Connection level, for EVERY primitives, key log, packet list (no hypotheses)
@@ -32,8 +36,8 @@ C. Handshake
 Hypotheses that are genuinely needed: those of `Props/C01` (sequence numbers below 2^64, TLS 1.2 AEAD plaintext < 2^16,
 MAC length > 0, 2-byte record version); handshake messages shorter than 2^24 (uint24 length) and not split across
 records (`hs13Loop` restarts at offset 0 in every record). Not covered: TLS 1.3 KeyUpdate, inner content types other
-than 22 / 23, the TLS ≤ 1.2 Finished records under ChangeCipherSpec (`handshakeFinished`; they advance the cipher state
-before the first application record — for those versions A starts from a state that is related AFTER them).
+than 22 / 23, renegotiation / more than one protected handshake record per side before the application data in TLS ≤ 1.2
+(`legacy_finished_record` composes for any number of them, `legacy_after_hello_exact` states the standard one each).
 Definitions used in the statements (`Ready`, `SEv`, `wireRecs`, `toRec`, `plainOf`, `released`, `Negotiated`, …) and the
 helper lemmas are in `TLX/Lemmas/Pipeline.lean`.
 -/
@@ -267,6 +271,62 @@ theorem app_export_exact (H : Crypto.Prims) (P : Prims) (L : SealLaws P) (kl : L
   refine ⟨fs, hfs, ?_⟩
   rw [Props.C06.reassemble_build _ _ hfs, h2, dirBytes_entries false ts evs _ h1, dirBytes_entries true ts evs _ h1]
 
+/-- SSL 3.0 – TLS 1.2 between the ServerHello and the application data: a ChangeCipherSpec record sets its direction's
+    flag and touches nothing else; the protected handshake record that follows it (Finished) is decrypted in step with
+    the sender — the cipher state (sequence number, CBC residue, RC4 position) advances exactly as the sender's — and
+    is never exported as application data (without `-a`: not at all). -/
+theorem legacy_finished_record (H : Crypto.Prims) (P : Prims) (L : SealLaws P) (kl : List Keylog.Key) (cls : CipherClass)
+    (h13 : cls.is13 = false) (macLen : Nat) (ver : Bytes) (hv : ver.length = 2) (x : Snd) (s : Session.St Dec)
+    (hs : Ready cls macLen x s) (srv : Bool) (ccs : Session.Rec) (hccs : ccs.typ = some 0x14) (body : Bytes) (f : Fresh)
+    (hok : SendOk cls macLen body f) (hq : x.c.seq < seqLimit ∧ x.s.seq < seqLimit) (m : Bool) (car : List Nat) :
+    let O := Pipeline.ops H P kl
+    let o := protect P L cls ver (x.get srv) 22 body f
+    let s' := Session.handleRecord O m (Session.handleRecord O m s ccs srv) ⟨o.2, car⟩ srv
+    s'.traffic.filter (·.isApp) = s.traffic.filter (·.isApp) ∧ (m = false → s'.traffic = s.traffic) ∧
+      Ready cls macLen (x.set srv o.1) s' ∧
+      (x.set srv o.1).c.seq ≤ max x.c.seq x.s.seq + 1 ∧ (x.set srv o.1).s.seq ≤ max x.c.seq x.s.seq + 1 := by
+  intro O o s'
+  obtain ⟨a1, a2, a3, a4, _, a6, a7⟩ := handleRecord_ccs O m s ccs srv hccs
+  have hs1 : Ready cls macLen x (Session.handleRecord O m s ccs srv) := hs.of_eq a1 a2 a3
+  obtain ⟨b1, b2, b3, _, _, b6, b7⟩ := handleRecord_hsEnc H P L kl cls h13 macLen ver hv x _ hs1 srv a4 body f hok hq m car
+  exact ⟨b1.trans a6, fun hm => (b2 hm).trans (a7 hm), b3, b6, b7⟩
+
+/-- SSL 3.0 – TLS 1.2, the connection from the installed decryptor on: ChangeCipherSpec + Finished of one side, then of
+    the other (`first = false`: the client finishes first, full handshake; `true`: resumption), then ANY history of
+    application-data records — without `-a` the traffic gains exactly the sender's application plaintexts, in order. -/
+theorem legacy_after_hello_exact (H : Crypto.Prims) (P : Prims) (L : SealLaws P) (kl : List Keylog.Key)
+    (cls : CipherClass) (h13 : cls.is13 = false) (macLen : Nat) (ver : Bytes) (hv : ver.length = 2) (x : Snd)
+    (s : Session.St Dec) (hs : Ready cls macLen x s) (first : Bool)
+    (ccs1 ccs2 : Session.Rec) (h1 : ccs1.typ = some 0x14) (h2 : ccs2.typ = some 0x14)
+    (b1 b2 : Bytes) (f1 f2 : Fresh) (c1 c2 : List Nat)
+    (hok1 : SendOk cls macLen b1 f1) (hok2 : SendOk cls macLen b2 f2)
+    (evs : List Ev) (cars : List (List Nat)) (hc : cars.length = evs.length)
+    (happ : ∀ e ∈ evs, IsAppSend e) (hev : ∀ e ∈ evs, EvOk cls macLen e)
+    (hq : max x.c.seq x.s.seq + (2 + evs.length) ≤ seqLimit) :
+    let O := Pipeline.ops H P kl
+    let o1 := protect P L cls ver (x.get first) 22 b1 f1
+    let x1 := x.set first o1.1
+    let o2 := protect P L cls ver (x1.get (!first)) 22 b2 f2
+    let x2 := x1.set (!first) o2.1
+    let recs := wireRecs (run P L cls ver x2 evs) cars
+    (Session.run O false s
+        ([(ccs1, first), (⟨o1.2, c1⟩, first), (ccs2, !first), (⟨o2.2, c2⟩, !first)] ++ recs)).traffic
+      = s.traffic ++ List.zipWith (fun e (r : Session.Rec × Bool) => (⟨some (evPt e), r.1, evSrv e, true⟩ : Session.Entry))
+          evs recs := by
+  intro O o1 x1 o2 x2 recs
+  obtain ⟨_, a2, a3, a4, a5⟩ := legacy_finished_record H P L kl cls h13 macLen ver hv x s hs first ccs1 h1 b1 f1 hok1
+    (by omega) false c1
+  change (x1.c.seq ≤ _) at a4
+  change (x1.s.seq ≤ _) at a5
+  obtain ⟨_, d2, d3, d4, d5⟩ := legacy_finished_record H P L kl cls h13 macLen ver hv x1 _ a3 (!first) ccs2 h2 b2 f2 hok2
+    (by omega) false c2
+  change (x2.c.seq ≤ _) at d4
+  change (x2.s.seq ≤ _) at d5
+  obtain ⟨_, e2, _⟩ := app_phase_exact H P L kl cls macLen ver hv evs cars hc x2 _ d3 happ hev (by omega) false
+  rw [Session.run_append]
+  simp only [Session.run, List.foldl_cons, List.foldl_nil] at e2 ⊢
+  rw [e2, d2 rfl, a2 rfl]
+
 -- ====================================================================== B. connection level (`Pipeline.connOut`)
 /-- the records of connection `c` in the order `Session` handles them (reassembly of both directions, packet by packet) -/
 def connRecs (info : Nat → Pipeline.Info) (c : Pipeline.Conn) : List (Session.Rec × Bool) :=
@@ -396,6 +456,11 @@ example : finCount sflight = 1 ∧ finCount [fin] = 1 ∧ (∀ m ∈ sflight, Ms
 example : ∀ e ∈ [Ev.send false 23 hi ⟨iv8, [], [], 0⟩, Ev.send true 23 [] ⟨iv8, [], [], 0⟩], IsAppSend e := by
   intro e he; simp at he; rcases he with rfl | rfl <;> rfl
 example : SEv.Ok (.aead13 .aesgcm 16) 32 (.hs13 true sflight ⟨[], [], [], 2⟩) := ⟨rfl, by decide⟩
+
+-- `legacy_finished_record` / `legacy_after_hello_exact`: a ChangeCipherSpec record, a 16-byte Finished message
+def ccsRec : Session.Rec := ⟨[20, 3, 3, 0, 1, 1], [9]⟩
+example : ccsRec.typ = some 0x14 := rfl
+example : SendOk (.aead12 .aesgcm 16) 32 (20 :: 0 :: 0 :: 12 :: k16.take 12) ⟨iv8, [], [], 0⟩ := by decide
 
 /-- what `Session` over the composed toy decryptor exports for a history: (data, direction, application tag) -/
 def observe (cls : CipherClass) (v : Session.Ver) (rv : Version) (macLen blockLen : Nat) (k : Keys) (x : Snd)
